@@ -19,6 +19,19 @@ Theorem C09_handler_table :
       else ret tt.
 Proof. exact handler_run_eq. Qed.
 
+(* handlers attached to the node itself (Incr::on_update) go through the same table; they are the ones
+   that can hear Unnecessary *)
+Theorem C09_node_handler_table :
+  forall n ix h nu now,
+    node_handler_run n ix h nu now =
+      if bool_decide (hd_created_at h < now)%Z then
+        match deliver (hd_prev h) nu with
+        | Some k => node_really_run n ix h k
+        | None => ret tt
+        end
+      else ret tt.
+Proof. exact node_handler_run_eq. Qed.
+
 (* what the node reports at the end of a stabilise: Changed exactly when it is valid, necessary, has a
    value and that value changed in the stabilise that just ended *)
 Theorem C09_node_report :
@@ -127,3 +140,4 @@ Print Assumptions C09_queued_until_the_end_of_propagation.
 Print Assumptions C09_end_of_stabilise_in_two_steps.
 Print Assumptions C09_deferred_writes_keep_the_stack.
 Print Assumptions C09_every_live_queued_node_is_reported.
+Print Assumptions C09_node_handler_table.
